@@ -5,6 +5,7 @@ from ..isa import Isa
 from ..encoding import Instruction, Syntax, Operand, Constructor
 from ..encoding import Relocation
 from ..token import Token, bit_range, Endianness
+from ...utils.bitfun import wrap_negative
 from .registers import DataRegister, AddressRegister
 from . import registers
 
@@ -63,7 +64,7 @@ class Rel16Relocation(Relocation):
     field = "imm16"
 
     def calc(self, sym_value, reloc_value):
-        return sym_value - reloc_value
+        return wrap_negative(sym_value - reloc_value, 16)
 
 
 # Helpers:
